@@ -78,7 +78,8 @@ def observe(case, rng):
     if case["idx"] == 1:
         data = pline + b"GET /app/x HTTP/1.1\r\nHost: h\r\n" + hdrs + b"\r\n"
     else:
-        data = pline + b"GET /first HTTP/1.1\r\nHost: h\r\n\r\n" + b"GET /app/x HTTP/1.1\r\nHost: h\r\n" + hdrs + b"\r\n"
+        pline2 = b"PROXY TCP4 1.2.3.4 5.6.7.8 1111 2222\r\n" if case.get("pline2") else b""
+        data = pline + b"GET /first HTTP/1.1\r\nHost: h\r\n\r\n" + pline2 + b"GET /app/x HTTP/1.1\r\nHost: h\r\n" + hdrs + b"\r\n"
     w = drv.make_worker(case["wk"], cfg, app)
     if case["peer"] == "unix":
         w.sockets[0].name = "/run/gunicorn.sock"
@@ -140,6 +141,10 @@ def c08(ctx):
     tlc.write_cfg(cfg, spec="Spec", constants={"Dev": {"TrustDeclaredAddr"}, "Product": "A"}, invariants=["DesignSatisfiesEnvelope"])
     rr = tlc.run("HeaderMap", cfg, name="HeaderMap_dev2", workers=4, timeout=600)
     ctx.coverage["deviation_runs"].append({"dev": "TrustDeclaredAddr", "reproduced": not rr.ok})
+    cfg = os.path.join(OUT, "cfg", "HeaderMap_dev3.cfg")
+    tlc.write_cfg(cfg, spec="Spec", constants={"Dev": {"LatePlineAccepted"}, "Product": "A"}, invariants=["DesignSatisfiesEnvelope"])
+    rr = tlc.run("HeaderMap", cfg, name="HeaderMap_dev3", workers=4, timeout=600)
+    ctx.coverage["deviation_runs"].append({"dev": "LatePlineAccepted", "reproduced": not rr.ok})
     cases = emit("A")
     cb = emit("B")
     if ctx.quick:
